@@ -15,6 +15,8 @@ import (
 	"fmt"
 	"go/constant"
 	"go/token"
+	"go/types"
+	"os"
 	"sort"
 	"strings"
 
@@ -218,6 +220,7 @@ func runC06(c *Ctx) {
 		}
 		c.Func(FnName(encFn))
 		c.Func(FnName(decFn))
+		quantCoherence(c, p, encFn)
 		es, ep := quantSigs(encFn)
 		ds, dp := quantSigs(decFn)
 		key := encFn.Name() + "~" + decFn.Name()
@@ -342,5 +345,328 @@ func segmentMapOff(c *Ctx, p *Program) {
 	}
 	if n == 0 {
 		c.Note("Q2 segment-map-off: the encoder never stores the constant false into a segment-header UpdateMap flag on this tree (no instance)")
+	}
+}
+
+// Q3 quantiser/token coherence: the quantisers announced in the frame header must be the ones the
+// coefficients were quantised with. In the function that produces the final frame bytes
+// (the exported encoder method returning ([]byte, error)), consider three kinds of calls:
+//   W  a call that (transitively) reaches the quantiser setter - the encoder function that derives
+//      the quantisation steps from KDcTable (the one Q1 compares with the decoder's);
+//   E  a call that (transitively) reaches a quantisation kernel - a function that takes a pointer
+//      to the matrix type the setter fills - i.e. coefficients and tokens are produced anew;
+//   S  the call whose result becomes the returned frame.
+// On no path may a W call reach S without an E call in between. For a W callee that returns a
+// boolean the analysis is sensitive to the constant returned: the callee "leaves the quantisers
+// changed" only on the return values reached after its own W calls.
+func quantCoherence(c *Ctx, p *Program, setter *ssa.Function) {
+	c.Rule("Q3 quantiser/token coherence: in the encoder method that returns the frame bytes, on no path does a call that may change the quantisers (it reaches the function deriving the steps from KDcTable) reach the call producing the returned frame without a call that re-quantises the coefficients in between; boolean-returning callees are summarised per returned constant")
+	pk := setter.Pkg
+	// call graph closure inside the package (static callees)
+	callees := func(fn *ssa.Function) []*ssa.Function {
+		var out []*ssa.Function
+		for _, b := range fn.Blocks {
+			for _, in := range b.Instrs {
+				if cc, ok := in.(ssa.CallInstruction); ok {
+					if cal := cc.Common().StaticCallee(); cal != nil && cal.Pkg == pk {
+						out = append(out, cal)
+					}
+				}
+			}
+		}
+		return out
+	}
+	var fns []*ssa.Function
+	for _, fn := range p.SrcFuncs() {
+		if fn.Pkg == pk && fn.Blocks != nil {
+			fns = append(fns, fn)
+		}
+	}
+	closure := func(seed map[*ssa.Function]bool) map[*ssa.Function]bool {
+		r := map[*ssa.Function]bool{}
+		for f := range seed {
+			r[f] = true
+		}
+		for changed := true; changed; {
+			changed = false
+			for _, fn := range fns {
+				if r[fn] {
+					continue
+				}
+				for _, cal := range callees(fn) {
+					if r[cal] {
+						r[fn] = true
+						changed = true
+						break
+					}
+				}
+			}
+		}
+		return r
+	}
+	W := closure(map[*ssa.Function]bool{setter: true})
+	// matrix types the setter stores into
+	mat := map[types.Type]bool{}
+	for _, b := range setter.Blocks {
+		for _, in := range b.Instrs {
+			if st, ok := in.(*ssa.Store); ok {
+				v := st.Addr
+				for i := 0; i < 6; i++ {
+					switch t := v.(type) {
+					case *ssa.FieldAddr:
+						if pt, ok := t.X.Type().Underlying().(*types.Pointer); ok {
+							if _, isN := pt.Elem().(*types.Named); isN {
+								mat[pt.Elem()] = true
+							}
+						}
+						v = t.X
+					case *ssa.IndexAddr:
+						v = t.X
+					default:
+						i = 6
+					}
+				}
+			}
+		}
+	}
+	kernels := map[*ssa.Function]bool{}
+	for _, fn := range fns {
+		if W[fn] || fn.Signature.Recv() != nil {
+			continue
+		}
+		for i := 0; i < fn.Signature.Params().Len(); i++ {
+			pt, ok := fn.Signature.Params().At(i).Type().(*types.Pointer)
+			if !ok || !mat[pt.Elem()] {
+				continue
+			}
+			// a consumer of the matrices: it never stores through the parameter
+			writes := false
+			for _, b := range fn.Blocks {
+				for _, in := range b.Instrs {
+					st, ok := in.(*ssa.Store)
+					if !ok {
+						continue
+					}
+					v := st.Addr
+					for k := 0; k < 6; k++ {
+						switch t := v.(type) {
+						case *ssa.FieldAddr:
+							v = t.X
+						case *ssa.IndexAddr:
+							v = t.X
+						default:
+							k = 6
+						}
+					}
+					if v == ssa.Value(fn.Params[i]) {
+						writes = true
+					}
+				}
+			}
+			if !writes {
+				kernels[fn] = true
+			}
+		}
+	}
+	if len(kernels) == 0 {
+		c.AnchorMissing("Q3-quant-coherence", "quantisation kernels (functions taking a pointer to the matrix type filled by "+setter.Name()+")")
+		return
+	}
+	E := closure(kernels)
+	debugSets(p, W, E)
+	// per-function summary for W callees: which constant boolean returns are reached "dirty"
+	type summ struct{ onTrue, onFalse, other bool }
+	memo := map[*ssa.Function]*summ{}
+	var summarise func(fn *ssa.Function, depth int) *summ
+	// generic forward dataflow: state at block entry (dirty may-analysis)
+	flow := func(fn *ssa.Function, depth int, atSink func(call *ssa.Call, dirty bool)) map[*ssa.BasicBlock]bool {
+		dirtyIn := map[*ssa.BasicBlock]bool{}
+		dirtyOutEdge := map[[2]*ssa.BasicBlock]bool{}
+		work := []*ssa.BasicBlock{fn.Blocks[0]}
+		seen := map[*ssa.BasicBlock]bool{}
+		for len(work) > 0 {
+			b := work[0]
+			work = work[1:]
+			d := dirtyIn[b]
+			var lastW *ssa.Call // last boolean W call in this block whose summary splits on the result
+			var lastSum *summ
+			cleanBefore := false
+			for _, in := range b.Instrs {
+				call, ok := in.(*ssa.Call)
+				if !ok {
+					continue
+				}
+				cal := call.Common().StaticCallee()
+				if cal == nil || cal.Pkg != pk {
+					continue
+				}
+				if atSink != nil {
+					atSink(call, d)
+				}
+				switch {
+				case cal == setter:
+					d = true
+					lastW = nil
+				case W[cal] && !E[cal]:
+					s := summarise(cal, depth+1)
+					if bt, ok := call.Type().Underlying().(*types.Basic); ok && bt.Kind() == types.Bool {
+						lastW, lastSum, cleanBefore = call, s, !d
+						d = d || s.onTrue || s.onFalse || s.other
+					} else {
+						if s.onTrue || s.onFalse || s.other {
+							d = true
+						}
+						lastW = nil
+					}
+				case W[cal] && E[cal]:
+					// changes the quantisers and quantises: summarise the callee's own order
+					s := summarise(cal, depth+1)
+					d = s.onTrue || s.onFalse || s.other
+					lastW = nil
+				case E[cal]:
+					d = false
+					lastW = nil
+				}
+			}
+			outs := make([]bool, len(b.Succs))
+			for i := range outs {
+				outs[i] = d
+			}
+			if iff, ok := b.Instrs[len(b.Instrs)-1].(*ssa.If); ok && lastW != nil && cleanBefore {
+				cond := iff.Cond
+				neg := false
+				if u, ok := cond.(*ssa.UnOp); ok && u.Op == token.NOT {
+					cond, neg = u.X, true
+				}
+				if cond == ssa.Value(lastW) {
+					t, f := lastSum.onTrue || lastSum.other, lastSum.onFalse || lastSum.other
+					if neg {
+						t, f = f, t
+					}
+					outs[0], outs[1] = t, f
+				}
+			}
+			for i, s := range b.Succs {
+				k := [2]*ssa.BasicBlock{b, s}
+				if outs[i] && !dirtyOutEdge[k] {
+					dirtyOutEdge[k] = true
+				}
+				nd := dirtyIn[s] || outs[i]
+				if !seen[s] || nd != dirtyIn[s] {
+					seen[s] = true
+					dirtyIn[s] = nd
+					work = append(work, s)
+				}
+			}
+			if len(b.Succs) == 0 {
+				dirtyIn[b] = dirtyIn[b] // keep
+			}
+			// record exit state for returns
+			if _, ok := b.Instrs[len(b.Instrs)-1].(*ssa.Return); ok {
+				dirtyOutEdge[[2]*ssa.BasicBlock{b, nil}] = d
+			}
+		}
+		res := map[*ssa.BasicBlock]bool{}
+		for k, v := range dirtyOutEdge {
+			if k[1] == nil {
+				res[k[0]] = v
+			}
+		}
+		return res
+	}
+	summarise = func(fn *ssa.Function, depth int) *summ {
+		if s, ok := memo[fn]; ok {
+			return s
+		}
+		s := &summ{}
+		memo[fn] = s
+		if depth > 12 {
+			s.other = true
+			return s
+		}
+		if fn == setter {
+			s.other = true
+			return s
+		}
+		exits := flow(fn, depth, nil)
+		for b, dirty := range exits {
+			if !dirty {
+				continue
+			}
+			ret := b.Instrs[len(b.Instrs)-1].(*ssa.Return)
+			if len(ret.Results) == 1 {
+				if v, ok := constBool(ret.Results[0]); ok {
+					if v {
+						s.onTrue = true
+					} else {
+						s.onFalse = true
+					}
+					continue
+				}
+			}
+			s.other = true
+		}
+		return s
+	}
+	// the frame producers
+	n := 0
+	for _, fn := range fns {
+		if fn.Object() == nil || !fn.Object().Exported() || fn.Signature.Recv() == nil || fn.Signature.Results().Len() != 2 {
+			continue
+		}
+		if types.TypeString(fn.Signature.Results().At(0).Type(), nil) != "[]byte" || !isErrorType(fn.Signature.Results().At(1).Type()) {
+			continue
+		}
+		if !W[fn] || !E[fn] {
+			continue
+		}
+		// sink calls: calls whose first result is returned
+		sinks := map[*ssa.Call]bool{}
+		for _, b := range fn.Blocks {
+			ret, ok := b.Instrs[len(b.Instrs)-1].(*ssa.Return)
+			if !ok || len(ret.Results) == 0 {
+				continue
+			}
+			v := ret.Results[0]
+			for i := 0; i < 4; i++ {
+				switch t := v.(type) {
+				case *ssa.Extract:
+					v = t.Tuple
+				case *ssa.Phi:
+					if len(t.Edges) > 0 {
+						v = t.Edges[0]
+					}
+				}
+			}
+			if call, ok := v.(*ssa.Call); ok {
+				sinks[call] = true
+			}
+		}
+		if len(sinks) == 0 {
+			continue
+		}
+		c.Func(FnName(fn))
+		bad := ""
+		flow(fn, 0, func(call *ssa.Call, dirty bool) {
+			if sinks[call] && dirty && bad == "" {
+				bad = p.Pos(call.Pos())
+			}
+		})
+		n++
+		c.Check(bad == "", "Q3-quant-coherence", FnName(fn), p.Pos(fn.Pos()),
+			fmt.Sprintf("every path that changes the quantisers (through %s) re-quantises the coefficients before the frame is produced", setter.Name()),
+			fmt.Sprintf("%s can reach the call that produces the returned frame (%s) after a call that changed the quantisers (it reaches %s) without quantising the coefficients again: the header then announces quantisers the recorded tokens were not coded with, and the decoder dequantises with the wrong steps", fn.Name(), bad, setter.Name()))
+	}
+	if n == 0 {
+		c.AnchorMissing("Q3-quant-coherence", "exported encoder method returning ([]byte, error) that both sets quantisers and quantises")
+	}
+}
+
+func debugSets(p *Program, W, E map[*ssa.Function]bool) {
+	if os.Getenv("VERIF_DEBUG") == "" {
+		return
+	}
+	for fn := range W {
+		fmt.Fprintf(os.Stderr, "Q3 W %s E=%v\n", fn.Name(), E[fn])
 	}
 }
